@@ -147,6 +147,21 @@ class Verifier:
             res.error_kind = 'shape'
             return res
         res.sha = func.sha
+        # every statement-anchored annotation must name a statement of the real function: an annotation that no
+        # longer matches anything is a shape error (undecided), never a silent no-op
+        if contract.stmt_hints and getattr(func, 'node', None) is not None:
+            texts = set()
+            for n_ in ast.walk(func.node):
+                if isinstance(n_, ast.stmt):
+                    try:
+                        texts.add(ast.unparse(n_))
+                    except Exception:
+                        pass
+            for h_ in contract.stmt_hints:
+                if not h_[0].startswith('@') and h_[0] not in texts:
+                    res.error = 'at_stmt anchor not found in %s: %r' % (contract.qualname, h_[0][:60])
+                    res.error_kind = 'shape'
+                    return res
         is_lemma = self.reg.is_lemma(func) if self.reg.is_spec_module(func.module) else False
         stack = [[]]
         seen_obl = {}
